@@ -1,7 +1,7 @@
 """C13: per-actor certificates + glue (see lean/Poupool/Properties/C13.lean and checks/actors_common.py)."""
 from checks import actors_common as ac
 
-THEOREMS = ['Poupool.C13.swim_relay_only_in_running_phases', 'Poupool.C13.swim_start_is_guarded', 'Poupool.C13.filtration_knows_swim_halted', 'Poupool.C13.swim_guard_allows_wintering', 'Poupool.C13.swim_guard_open_modes_partial', 'Poupool.C01.glue_swim', 'Poupool.C01.swim_off_when_halted']
+THEOREMS = ['Poupool.C13.timed_stops', 'Poupool.C13.timed_accumulates', 'Poupool.C13.swim_relay_only_in_running_phases', 'Poupool.C13.swim_start_is_guarded', 'Poupool.C13.filtration_knows_swim_halted', 'Poupool.C13.swim_guard_allows_wintering', 'Poupool.C13.swim_guard_open_modes_partial', 'Poupool.C01.glue_swim', 'Poupool.C01.swim_off_when_halted']
 MODULE = "Poupool.Properties.C13"
 
 
@@ -18,3 +18,8 @@ def search(chk):
 
 def replay(path):
     return ac.replay(path)
+
+
+def extra(chk, info, res):
+    from checks import winter_common
+    winter_common.correspondence(chk, ('timed',))
